@@ -25,14 +25,14 @@ from vlib import core, fraggen, fragrun
 MANIFEST_ENTRY = {
     "level_claimed": {"category": "proof",
         "text": "Lean theorem for a specification-level type system of the checked fragment (Nat/Int/Bool/Str, operators + - * < and, "
-                "if-expressions, user functions with 1-2 parameters, default arguments, lambdas, loop bodies, attribute selection): a "
+                "if-expressions, user functions with 1-2 parameters, default arguments, lambdas, loop bodies, keyword arguments `print!(e, end := d)` / `f(a, q := b)`, attribute selection): a "
                 "well-typed program with exactly one injected definite error — operand type without a signature row, dropped/added call "
                 "argument, argument outside the parameter type, reference to an undefined name, missing attribute — has no typing, for "
                 "every injector, every position and any nesting depth (induction on the context around the position). The real checker "
                 "is not transcribed: it is tied by verdict correspondence on programs produced by the Lean injectors themselves (base "
                 "accepted, injected rejected with >= 1 error and not executed)."},
     "level_note": "proved: C05_inject_untypable (program level), C05_inject_untypable_expr, C05_untypable_propagates, C05_positions_complete, "
-                  "C05_sig_clash + 4 decide-checked examples on a program with every statement form. The operator/attribute tables of the spec are "
+                  "C05_sig_clash, C05_witness_lt_enum, C05_witness_loopvar + 5 decide-checked examples (a program with every statement form; positions inside keyword-argument expressions `end := …` / `q := …` are statement slots of the model, hence inside the theorem). The operator/attribute tables of the spec are "
                   "hand-written (not regenerated from the checker) and validated on every run by the calibration direction (every spec-typable "
                   "generated program must be accepted by the real front end). Only differential: the real checker's rejection — all positions "
                   "of the generated programs in the thorough tier, a sample in the quick tier; exit status / diagnostics / non-execution are "
@@ -41,7 +41,7 @@ MANIFEST_ENTRY = {
 }
 
 RULE = ("base programs: 4 seed definitions + 4-9 statements (definitions, prints, 1/2-parameter functions, default-argument functions, "
-        "lambdas, for-loops) over typed expressions of depth <= 3; injected programs: every (injector, statement, slot, path) the Lean "
+        "lambdas, for-loops, print!(e, end := d), v = f(a, q := b)) over typed expressions of depth <= 3; injected programs: every (injector, statement, slot, path) the Lean "
         "driver enumerates; non-trivial = injected at path depth >= 1 or inside a function/lambda/default/loop slot")
 
 TYS = ["nat", "int", "bool", "str"]
@@ -174,12 +174,25 @@ class G05:
                 e = self.expr(ret, self.D, self.G + [p], op=False)
                 stmts.append(f"(lam {p} {e})")
                 self.F.append(("one", [p], ret, self.enumish(e)))
+            elif k == 10 and r.chance(1, 2):
+                # keyword arguments: print!(e, end := d) and v = f(a, q := b) — positions inside the keyword expressions
+                twos = [(j, f) for j, f in enumerate(self.F) if f[0] == "two"]
+                if twos and r.chance(1, 2):
+                    j, f = r.pick(twos)
+                    stmts.append(f"(defvK {j} {self.expr(self.argty(f[1][0]), self.D, self.G)} {self.expr(self.argty(f[1][1]), self.D, self.G)})")
+                    if f[3]:
+                        self.enum_vars.add(len(self.G))
+                    self.G.append(f[2])
+                else:
+                    stmts.append(f"(printEnd {self.expr(r.pick(TYS), self.D, self.G, op=False)} {self.expr('str', self.D, self.G)})")
             else:
                 # the loop variable has an interval type: like the enum-typed terms it is used only outside operand positions (the
                 # checker rejects `(i * i) * (i * i)` as a Nat argument and ACCEPTS `(i + 2) + (i * "s0")`: corpus/C05, recorded)
                 self.enum_vars.add(len(self.G))
                 stmts.append(f"(forp {1 + r.below(3)} {self.expr(r.pick(TYS), self.D, self.G + ['nat'], op=False)})")
                 self.enum_vars.discard(len(self.G))
+        if not any(x.startswith("(printEnd") or x.startswith("(defvK") for x in stmts):
+            stmts.append(f"(printEnd {self.expr(r.pick(TYS), 2, self.G, op=False)} {self.expr('str', self.D, self.G)})")
         stmts.append(f"(print {self.expr(r.pick(TYS), self.D, self.G, op=False)})")
         return "(prog " + " ".join(stmts) + ")"
 
@@ -210,6 +223,20 @@ def unq(s):
             out.append(c)
         i += 1
     return "".join(out)
+
+
+def stmt_kinds(prog):
+    """kinds of the top-level statements of a `(prog …)` S-expression"""
+    kinds, depth = [], 0
+    for m in re.finditer(r"\(([A-Za-z0-9]+)|\)|\"(?:[^\"\\]|\\.)*\"", prog):
+        t = m.group(0)
+        if t.startswith("("):
+            depth += 1
+            if depth == 2:
+                kinds.append(m.group(1))
+        elif t == ")":
+            depth -= 1
+    return kinds
 
 
 def parse_model(col):
@@ -286,6 +313,7 @@ def run(ctx):
     for i in range(n_base):
         g = G05(fraggen.Rng(ctx.seed * 1000003 + 5000 + i), max_depth=2 + (i % 2))
         rows.append((f"b{i}", g.program(), "-"))
+    prog_of = {r_[0]: r_[1] for r_ in rows}
     mrc, mrows, merr = core.run_model("C05", rows)
     spec_contra = [m for m in mrows if m[2].startswith("viol")]
     bases, injected = {}, []
@@ -303,9 +331,12 @@ def run(ctx):
             pass
         bases[m[0]] = base
         sizes.append(base["size"])
+        kinds = stmt_kinds(prog_of.get(m[0], ""))
+        for it in injs:
+            it["kw"] = it["stmt"] < len(kinds) and kinds[it["stmt"]] in ("printEnd", "defvK") and it["slot"] == 1
         if per_base is not None and len(injs) > per_base:
-            # keep every injector represented, prefer deep positions
-            injs.sort(key=lambda x: (-len(x["path"]), x["inj"]))
+            # keep every injector represented, prefer positions inside keyword-argument expressions, then deep positions
+            injs.sort(key=lambda x: (not x["kw"], -len(x["path"]), x["inj"]))
             keep, seen = [], set()
             for it in injs:
                 if it["inj"] not in seen:
@@ -339,7 +370,7 @@ def run(ctx):
         hist[it["inj"]] = hist.get(it["inj"], 0) + 1
         dd = len(it["path"])
         depth_hist[dd] = depth_hist.get(dd, 0) + 1
-        if dd >= 1 or it["slot"] == 1:
+        if dd >= 1 or it["slot"] == 1 or it.get("kw"):
             nontrivial += 1
         if v.startswith("accepted"):
             accepted.append(it)
@@ -386,7 +417,7 @@ def run(ctx):
     extra.update({"base_programs": len(bases), "base_not_welltyped_in_spec": not_wt, "base_rejected_by_checker": len(base_rejected), "base_front_end_panics": [c[:120] for _, _, c in base_crashed[:5]],
                   "base_rejected_samples": [{"src": b, "front_end": re.sub(r"\\u001b\[[0-9;]*m", "", c)[:300]} for _, b, c in base_rejected[:3]],
                   "base_size_min_max": [min(sizes or [0]), max(sizes or [0])], "injected_programs": len(injected),
-                  "injected_by_injector": hist, "injected_by_path_depth": depth_hist, "rejection_error_kinds": err_kinds,
+                  "injected_by_injector": hist, "injected_by_path_depth": depth_hist, "injected_inside_keyword_argument": sum(1 for it in injected if it.get("kw")), "rejection_error_kinds": err_kinds,
                   "injected_accepted": len(accepted), "injected_crashed": len(crashed), "cli_sample": len(sample),
                   "cli_sample_bad": len(cli_bad), "marker_detects_execution_on_base_programs": marker_ok, "cli_base_sample": {cid: cli[cid] for cid, _ in base_sample},
                   "spec_contradictions": len(spec_contra)})
